@@ -752,6 +752,9 @@ def run(rep, rng, tier):
             re = exact_record(rng, M); im = exact_record(rng, M); dt = gens.dyadic_dt(rng, 0, 6)
         else:
             re = tol_record(rng, M); im = tol_record(rng, M); dt = rng.choice([0.01, 0.02, rng.uniform(1e-3, 0.5)])
+        if k % 4 == 1:      # very weak spectra (records of amplitude ~1e-11 .. 1e-13): the reconstruction is linear at every amplitude
+            sc = 2.0 ** -rng.choice([34, 40, 44])
+            re, im = re * sc, im * sc
         as_sig = rng.choice([None, None, 'signal', 'acc'])
         s = guarded(impl_fas2values, re, im, dt, as_sig)
         fname = 'fas2values' if as_sig is None else 'fas2signal[%s]' % as_sig
